@@ -221,7 +221,7 @@ class REGCV1ModelBase(Model):
 
         self.vref2 = Algeb(tex_name=r'v_{ref2}',
                            info='voltage reference after adjusted by reactive power',
-                           e_str='(u * Qref - Qe) * kv + vref - vref2',
+                           e_str='(u * Qref - Qe) * kv + u * vref - vref2',
                            v_str='u * vref')
 
         self.dw = State(info='delta virtual rotor speed',
@@ -235,7 +235,7 @@ class REGCV1ModelBase(Model):
                            unit='pu (Hz)',
                            v_str='u',
                            tex_name=r'\omega',
-                           e_str='1 + dw - omega')
+                           e_str='u * (1 + dw) - omega')
 
         self.delta = State(info='virtual delta',
                            unit='rad',
@@ -255,11 +255,11 @@ class REGCV1ModelBase(Model):
         self.Pe = Algeb(tex_name='P_e',
                         info='active power injection from VSC',
                         e_str='vd * Id + vq * Iq - Pe',
-                        v_str='Pref')
+                        v_str='u * Pref')
         self.Qe = Algeb(tex_name='Q_e',
                         info='reactive power injection from VSC',
                         e_str='- vd * Iq + vq * Id - Qe',
-                        v_str='Qref')
+                        v_str='u * Qref')
 
         self.Id = Algeb(tex_name='I_d',
                         info='d-axis current',
